@@ -23,7 +23,7 @@ pub fn one(ctx: &mut Ctx, x: &[u8], shape: &str) {
     let viol = |ctx: &mut Ctx, cls: &str, detail: String| {
         ctx.violation("C05", format!("uncompress|{}", cls), format!("{}: {}", shape, detail), x);
     };
-    let u = match guarded(runaway_budget(x.len()) * 4, || Compress::uncompress(x).map_err(|e| e.to_string())) {
+    let u = match guarded(crate::mon::work_budget(x.len()) * 4, || Compress::uncompress(x).map_err(|e| e.to_string())) {
         Err(p) => {
             let kind = if p.is_budget() { "non-termination" } else { "panic" };
             return viol(ctx, &format!("{}|{}", kind, p.class()), p.msg.clone());
@@ -56,7 +56,7 @@ pub fn one(ctx: &mut Ctx, x: &[u8], shape: &str) {
         return viol(ctx, "output-rejected-by-parser", short(&u));
     }
     // stable
-    match guarded(runaway_budget(u.len()) * 4, || Compress::uncompress(&u).map_err(|e| e.to_string())) {
+    match guarded(crate::mon::work_budget(u.len()) * 4, || Compress::uncompress(&u).map_err(|e| e.to_string())) {
         Ok(Ok(u2)) if u2 == u => ctx.count("idempotent"),
         Ok(Ok(_)) => return viol(ctx, "not-idempotent", "second decompression changed the packet".into()),
         Ok(Err(e)) => return viol(ctx, "second-decompression-error", e),
@@ -70,7 +70,7 @@ pub fn one(ctx: &mut Ctx, x: &[u8], shape: &str) {
     dst.push(u.len());
     for (o, want_o) in src.iter().zip(dst.iter()) {
         ctx.count("offset_translations");
-        match guarded(runaway_budget(x.len()) * 4, || {
+        match guarded(crate::mon::work_budget(x.len()) * 4, || {
             Compress::uncompress_with_previous_offset(x, *o).map(|r| r.1).map_err(|e| e.to_string())
         }) {
             Ok(Ok(got)) if got == *want_o => {}
